@@ -129,6 +129,10 @@ def compat_u2s(u):
         return str(u)
 
 
+class _NULL:
+    """What marshal's TYPE_NULL ('0') unmarshals to."""
+
+
 class _BoundedReader:
     """Wraps a binary file object so that ``read(n)`` never allocates more
     than the data that is really there, however large the count taken
@@ -270,10 +274,10 @@ class _VersionIndependentUnmarshaller:
 
         return
 
-    # In C this NULL. Not sure what it should
-    # translate here. Note NULL != None which is below
+    # In C this NULL. It ends a dictionary, and has to be something other
+    # than None, which can be a dictionary key or value.
     def t_C_NULL(self, save_ref, bytes_for_s=False):
-        return None
+        return _NULL
 
     def t_None(self, save_ref, bytes_for_s=False):
         return None
@@ -481,10 +485,10 @@ class _VersionIndependentUnmarshaller:
         # dictionary
         while True:
             key = self.r_object(bytes_for_s=bytes_for_s)
-            if key is None:
+            if key is _NULL:
                 break
             val = self.r_object(bytes_for_s=bytes_for_s)
-            if val is None:
+            if val is _NULL:
                 break
             ret[key] = val
             pass
